@@ -15,7 +15,7 @@ import (
 func Generate(w *kit.Out, r *kit.Rand, tier string) {
 	nRand, nBoundaryPerKind, nMal := 150, 1, 12
 	if tier == "thorough" {
-		nRand, nBoundaryPerKind, nMal = 900, 4, 40
+		nRand, nBoundaryPerKind, nMal = 600, 3, 40
 	}
 	emit := func(id string, p *Program) {
 		w.Case(id)
